@@ -10,6 +10,7 @@ from sismic.exceptions import StatechartError
 
 import gen_charts as gc
 import tlc
+import driver
 import evidence as evd
 
 KCLS = {'basic': BasicState, 'compound': CompoundState, 'orthogonal': OrthogonalState, 'final': FinalState,
@@ -123,17 +124,25 @@ def run_session(c, hist, M):
     for h in hist:
         res = 'ok'
         try:
-            apply_op(sc, h, M)
+            with driver.watchdog():
+                apply_op(sc, h, M)
         except StatechartError:
             res = 'StatechartError'
         except ValueError:
             res = 'ValueError'
+        except driver.Hang:
+            res = 'Hang'
         except Exception as e:
             res = type(e).__name__
         try:
-            valid = bool(sc.validate())
-        except StatechartError:
+            with driver.watchdog():
+                valid = bool(sc.validate())
+        except (StatechartError, driver.Hang):
             valid = False
+        if res == 'Hang':       # the structure may be cyclic: stop here, with the structure before the call
+            lines.append({'op': h['op'], 'a': h['a'], 'b': h['b'], 'c': h['c'], 'res': res,
+                          'post': lines[-1]['post'] if lines else init, 'valid': False})
+            break
         lines.append({'op': h['op'], 'a': h['a'], 'b': h['b'], 'c': h['c'], 'res': res,
                       'post': struct_of(sc, M), 'valid': valid})
     return init, lines
